@@ -11,6 +11,13 @@ let zi = z_of_int and iz = int_of_z
 
 type case = { regs : int * int * int * int; cells : (int * int) list; cons : int list; files : (int * int list) list }
 
+let case_steps (line : string) : int * string =
+  if Stdlib.String.length line > 0 && Stdlib.String.get line 0 = 'k' then
+    (match tokens line with
+     | k :: rest -> (int_of_string (Stdlib.String.sub k 1 (Stdlib.String.length k - 1)), Stdlib.String.concat " " rest)
+     | [] -> (1, line))
+  else (1, line)
+
 let parse_case (line : string) : case =
   let toks = ref (SL.map int_of_string (tokens line)) in
   let next () = match !toks with x :: r -> toks := r; x | [] -> failwith "short case" in
@@ -54,7 +61,42 @@ let canon (pc, a, b, o) (m0 : WMap.t) (m1 : WMap.t) (ev : Isa.event) (inp : Isa.
   P.sprintf "ok %d %d %d %d | W%s | %s | cons=%d |%s" pc a b o (Stdlib.String.concat "" w) (ev_str ev)
     (SL.length inp.Isa.console) (Stdlib.String.concat "" fs)
 
-let run_case (line : string) : unit =
+(* k > 1: a short run of k instructions from the planted state (self-modifying sequences); judged only when all k
+   ISA steps are defined and none exits; the event column is always tau *)
+let run_multi (k : int) (line : string) : unit =
+  let c = parse_case line in
+  let (pc, a, b, o) = c.regs in
+  let m0 = mem_of c in
+  let st = ref { Isa.pc = zi pc; Isa.areg = zi a; Isa.breg = zi b; Isa.oreg = zi o; Isa.mem = m0 } in
+  let inp = ref (inputs_of c) in
+  let sm = ref { SimModel.s_pc = zi pc; s_areg = zi a; s_breg = zi b; s_oreg = zi o; s_mem = m0;
+                 s_running = true; s_exit = zi 0; s_cycles = zi 0 } in
+  let bad = ref "" and mbad = ref "" in
+  for _ = 1 to k do
+    if !bad = "" then
+      (match Isa.step !st !inp with
+       | Isa.Ok ((s', inp'), ev) ->
+           (match ev with Isa.Exit _ -> bad := "skip" | _ -> ());
+           (match SimModel.step !sm !inp with
+            | SimModel.SOk ((m', _), _) -> sm := m'
+            | _ -> mbad := "modelstuck");
+           st := s'; inp := inp'
+       | Isa.Undefined (Isa.BadAddress _) -> bad := "badaddr"
+       | Isa.Undefined _ -> bad := "skip")
+  done;
+  if !bad = "badaddr" then (P.printf "I badaddr\nM badaddr\n")
+  else if !bad <> "" then (P.printf "I badaddr\nM badaddr\n")     (* not judged: treated like out-of-quantifier *)
+  else begin
+    let s' = !st in
+    P.printf "I %s\n" (canon (iz s'.Isa.pc, iz s'.Isa.areg, iz s'.Isa.breg, iz s'.Isa.oreg) m0 s'.Isa.mem Isa.Tau !inp c);
+    let m' = !sm in
+    if !mbad <> "" then P.printf "M illegal\n" else
+    P.printf "M %s\n" (canon (iz m'.SimModel.s_pc, iz m'.SimModel.s_areg, iz m'.SimModel.s_breg, iz m'.SimModel.s_oreg) m0 m'.SimModel.s_mem Isa.Tau !inp c)
+  end
+
+let run_case (line0 : string) : unit =
+  let (k, line) = case_steps line0 in
+  if k > 1 then run_multi k line else
   let c = parse_case line in
   let (pc, a, b, o) = c.regs in
   let m0 = mem_of c in
@@ -103,7 +145,13 @@ let run_main () =
   let words = image_words (read_file bin) in
   let cons = let b = Buffer.create 64 in (try while true do Buffer.add_channel b stdin 1 done with End_of_file -> ()); Buffer.contents b in
   let ncons = Stdlib.String.length cons in
-  let inp0 = { Isa.console = SL.init ncons (fun i -> zi (Char.code (Stdlib.String.get cons i))); Isa.files = (fun _ -> []) } in
+  (* stream files simin<k> of the working directory, as HexSimIO opens them *)
+  let file_bytes (k : int) : BinNums.coq_Z list =
+    let name = P.sprintf "simin%d" k in
+    if Sys.file_exists name then (let f = read_file name in SL.init (Stdlib.String.length f) (fun i -> zi (Char.code (Stdlib.String.get f i)))) else [] in
+  let ftab = Array.init 8 file_bytes in
+  let inp0 = { Isa.console = SL.init ncons (fun i -> zi (Char.code (Stdlib.String.get cons i)));
+               Isa.files = (fun g -> let i = iz g in if i >= 0 && i < 8 then ftab.(i) else []) } in
   let st = ref (Isa.boot (SL.map zi words)) in
   let sm = ref (SimModel.init (fun _ -> zi 0) (zi 0) (SL.map zi words)) in
   let inp = ref inp0 in
